@@ -676,7 +676,7 @@ class CostFunction_GaussApproximation(CostFunction):
         self._needs_errors = False
         self._is_chi2 = False
         self._saturated = True
-        self._kafe2go_identifier = self.name
+        self._kafe2go_identifier = "gauss_approximation_" + errors_to_use.lower()
 
     def gaussian_approximation_covariance(self, data, model, total_cov_mat):
         r"""A least-squares cost function calculated from (`y`) data and model values,
